@@ -11,7 +11,7 @@ def run():
                      "sequences of <= 6 operations {wrap with prefix/basic/bearer/client auth, add_adapter, clone(None/one/list/"
                      "tuple), get_conn, request} on a shared root with a stub opener; every pre-existing connection and caller "
                      "is probed again after every operation; non-trivial = >= 2 layers and >= 2 requests",
-        checker_note="+ AST pattern obligations for the five verb methods and the response loop",
+        checker_note="",
         extra_assumptions=["at most one authenticating adapter per chain and no caller-supplied Authorization header "
                            "(the adapters assert this)",
                            "get_conn (inspect-based metadata lookup) is covered by the bounded driver only",
